@@ -136,6 +136,7 @@ def check(run):
                 judge_random(run, backend, scripts, decisions, events, results, other, drv)
         long_hold_family(run, scratch)
         expired_keepalive_family(run, scratch)
+        fail_racing_refresh(run, scratch)
         run.exhaustive = False
         if drv is not None and run.corr_disagreements == 0:
             run.obligation('correspondence: %d schedules on the real lock classes give exactly the results of the model interpreting the extracted trees' % run.corr_programs, True)
@@ -215,6 +216,42 @@ def expired_keepalive_family(run, scratch):
                 run.fail('not-reacquirable', 'keep-alive lock released by its holder cannot be acquired', {'kind': 'expired-keepalive', 'age': age})
         finally:
             w.close()
+
+
+def fail_racing_refresh(run, scratch):
+    """keep-alive lock: fail() while the helper process is in the middle of a refresh (its last utime lands as it is being stopped): the failed
+    mark must survive, i.e. the helper has to be stopped before the mark is written"""
+    import os as _os
+    import jug.backends.file_store as fs
+
+    class FakePopen:
+        def __init__(self, *a, **k):
+            self.path = None
+
+        def kill(self):
+            if self.path:
+                try:
+                    _os.utime(self.path, None)      # the refresh that was in flight
+                except OSError:
+                    pass
+    saved = fs.Popen
+    fs.Popen = FakePopen
+    d = _os.path.join(scratch, 'frr')
+    try:
+        lk = fs.file_keepalive_based_lock(d, 'e' * 40)
+        if not lk.get() or lk.monitor is None:
+            return
+        lk.monitor.path = lk.fullname
+        lk.fail()
+        other = fs.file_keepalive_based_lock(d, 'e' * 40)
+        run.case(('keepalive', 'fail-racing-refresh'), nontrivial=True)
+        if not (other.is_locked() and other.is_failed()) or other.get():
+            run.fail('failed-mark-lost-to-refresh', 'keep-alive lock: the holder calls fail() while its helper is in the middle of a refresh: afterwards another client observes is_locked=%s is_failed=%s'
+                     ' (a lock marked failed stays failed until released)' % (other.is_locked(), other.is_failed()), {'kind': 'fail-racing-refresh'})
+        lk.release()
+    finally:
+        fs.Popen = saved
+        core.rm_rf(d)
 
 
 def judge_random(run, backend, scripts, decisions, events, results, other, drv):
